@@ -199,7 +199,7 @@ def check(run, replay=None, prop="C15", harness_cmd="c15"):
                 "exhaustive over {publish(id,ttl), ask(conn,id,ttl)} x 2 connections x 2 ids x TTL {1,3} x advance {0,1,3}s up to "
                 "the stated length (id/connection symmetry removed), seeded random histories (<= 60 operations, 4 connections, "
                 "5 ids, TTL 0..7 and 16-bit-boundary TTLs, ns-granular clock advances on the expiry boundaries, a malformed stream), "
-                "and header-codec cases. non-trivial = distinct history in which at least one frame was delivered, or codec case")
+                "and header-codec cases. non-trivial = distinct history in which at least one frame was delivered, or codec case Burst histories (70-300 distinct ids: more pending deliveries per connection than the channel capacity, more heap records due at one operation than any batch).")
     st = {}
     try:
         st = json.load(open(os.path.join(run.dir, "stats.json")))
